@@ -1,5 +1,6 @@
 #!/bin/sh
 # usage: run_stable_tests.sh <worktree dir>   -- runs the 151 offline-stable tests of the repository in that tree
 cd "$1" || exit 2
+export PYTHONHASHSEED=0   # test parametrisation iterates over a set: xdist workers must agree on the order
 exec /venv/bin/python -m pytest -q -p no:cacheprovider --timeout=900 -n 4 -o log_cli=false \
   -k "not test_basic_cif and not test_long_pdb and not test_short_pdb and not test_dx2cube and not test_ligand_biomolecule and not test_propka_apo and not test_propka_pka and not remote and not 1FAS_pdb" 2>&1 | tail -15
